@@ -72,7 +72,9 @@ def build_binaries(ctx: Ctx) -> dict[str, Path]:
         key, (d, drv, flags) = item
         out = ctx.scratch / f"drv_{key}"
         srcs = sorted((d / "src").glob("*.cpp")) + [SHIM / drv]
-        p = compile_cpp(srcs, [SHIM / "include", d / "include"], out, flags)
+        # array subscripts of the generated code are checked against the DECLARED sizes of its arrays (class members included): an index
+        # outside them stops the program with a diagnostic instead of silently reading the neighbouring member
+        p = compile_cpp(srcs, [SHIM / "include", d / "include"], out, list(flags))      # (compile_cpp adds -fsanitize=bounds)
         return key, out, p
 
     bins = {}
@@ -104,7 +106,13 @@ def run_cvode(ctx: Ctx, binary: Path, scripts: list[str], tag: str) -> dict[int,
     wd = ctx.sub(f"run_{tag}")
     p = subprocess.run([str(binary), str(f), str(wd)], capture_output=True, text=True, timeout=1200)
     if p.returncode != 0:
-        raise MachineryError(f"driver {binary.name} exited {p.returncode}: {p.stderr[-2000:]}")
+        m = re.search(r"runtime error: (index -?\d+ out of bounds for type '[^']+')", p.stderr)
+        if m:
+            where = re.search(r"(naunet\w*\.(?:cpp|h)):(\d+)", p.stderr)
+            ctx.violation(f"C19|OutOfBounds|{tag.split('_', 1)[-1]}", f"the generated solver ({tag}) indexes one of its own arrays outside its declared size while handling "
+                          f"a failure script: {m.group(1)} at {where.group(0) if where else '?'}", {"stderr": p.stderr[-1500:], "scripts_file": str(f)})
+        else:
+            raise MachineryError(f"driver {binary.name} exited {p.returncode}: {p.stderr[-2000:]}")
     runs: dict[int, list[dict]] = {}
     cur = None
     for line in p.stdout.splitlines():
